@@ -38,7 +38,7 @@ def observe(R, prop, n, seed=None, tag="main"):
 
 def brief(case, limit=60):
     """a history small enough for a message: kind, config and the operations"""
-    ops = [{k: v for k, v in o.items() if k in ("op", "v", "k", "votes", "evidence", "validators", "dt", "res", "updates", "consensus_applied", "consensus_err")} for o in case["ops"]]
+    ops = [{k: v for k, v in o.items() if k in ("op", "v", "k", "to", "note", "votes", "evidence", "validators", "dt", "res", "updates", "consensus_applied", "consensus_err")} for o in case["ops"]]
     return {"kind": case["kind"], "cfg": case["cfg"], "ops": ops[-limit:]}
 
 
